@@ -12,22 +12,22 @@ def _model_ok(c):
 
 def ideal_space(tier, seed, coarse=False):
     q = tier == "quick"
-    modes = ["vac", ("T", -20.0), ("p", 0.5)] if q else ["vac", ("T", -60.0), ("T", -20.0), ("T", 120.0), ("p", 0.0),
-                                                         ("p", 0.5), ("p", 5.0)]
+    modes = ["vac", ("T", -20.0), ("p", 0.5)] if q else ["vac", ("T", -60.0), ("T", -20.0), ("p", 0.5), ("p", 5.0)]
+    # thorough extends the quick lattice in mixtures (all 12), modes, programmes, areas and step counts; about 1 M traces
     alph = {
         "kind": ["ideal_iso", "ideal_noniso"],
         "mixture": _mixtures(tier),
         "model": ["NRTL", "UNIQUAC"],
         "mode": modes,
         "prog": ["none", "poly", "exp", "log"] if q else ["none", "poly", "exp", "log", "poly3", "exp3", "log3"],
-        "area": [0.05, 1.0] if q else [0.01, 0.05, 1.0, 30.0],
-        "amount": [0.047, 50.0] if q else [0.047, 1.0, 50.0],
-        "dt": core.lat([0.1, 2.0], seed) if q else core.lat([0.01, 0.1, 0.5, 2.0], seed),
-        "steps": [1, 3, 6] if q else [1, 2, 3, 6, 12],
-        "x0": core.lat([0.1, 0.45, 0.9], seed) if q else core.lat([0.01, 0.1, 0.3, 0.5, 0.7, 0.9, 0.99], seed),
+        "area": [0.05, 1.0] if q else [0.05, 1.0, 30.0],
+        "amount": [0.047, 50.0],
+        "dt": core.lat([0.1, 2.0], seed),
+        "steps": [1, 3, 6] if q else [1, 3, 6, 12],
+        "x0": core.lat([0.1, 0.45, 0.9], seed),
         "basis": ["weight", "molar"],
-        "T": core.lat([313.15, 353.15], seed) if q else core.lat([293.15, 313.15, 333.15, 353.15, 373.15], seed),
-        "P": [(1e-3, 2e-5)] if q else [(1e-3, 2e-5), (3e-5, 4e-3)],
+        "T": core.lat([313.15, 353.15], seed),
+        "P": [(1e-3, 2e-5)],
         "tref_offset": [0.0, -12.0],
     }
 
@@ -51,20 +51,21 @@ CURVE_CONFIGS = {
 
 def nonideal_space(tier, seed):
     q = tier == "quick"
+    # thorough: about 1.1 M traces
     alph = {
         "kind": ["nonideal_iso", "nonideal_noniso"],
-        "mixture": ["H2O_EtOH", "S2"] if q else ["H2O_EtOH", "H2O_iPOH", "MeOH_DMC", "S1", "S2", "S4"],
+        "mixture": ["H2O_EtOH", "S2"] if q else ["H2O_EtOH", "MeOH_DMC", "S2", "S4"],
         "model": ["NRTL", "UNIQUAC"],
-        "mode": ["vac", ("T", -20.0), ("p", 0.5)] if q else ["vac", ("T", -60.0), ("T", -20.0), ("p", 0.5), ("p", 5.0)],
-        "prog": ["none", "poly", "exp", "log"] if q else ["none", "poly", "exp", "log", "exp3", "log3"],
+        "mode": ["vac", ("T", -20.0), ("p", 0.5)] if q else ["vac", ("T", -60.0), ("T", -20.0), ("p", 0.5)],
+        "prog": ["none", "poly", "exp", "log"] if q else ["none", "poly", "exp3", "log3"],
         "curves": [CURVE_CONFIGS["one"], CURVE_CONFIGS["two"]] if q else list(CURVE_CONFIGS.values()),
         "init_perm": [None, {"values": (2.5e-2, 3.0e-5)}] if q else [None, {"values": (2.5e-2, 3.0e-5)},
                                                                      {"values": (1.0e-2, 8.0e-5), "units": "GPU"}],
         "area": [0.05, 1.0],
         "amount": [0.047, 50.0],
         "dt": core.lat([0.1, 2.0], seed),
-        "steps": [1, 3, 6] if q else [1, 2, 3, 6, 12],
-        "x0": core.lat([0.1, 0.45], seed) if q else core.lat([0.06, 0.1, 0.3, 0.45, 0.7, 0.88], seed),
+        "steps": [1, 3, 6] if q else [1, 3, 6, 12],
+        "x0": core.lat([0.1, 0.45], seed) if q else core.lat([0.1, 0.45, 0.8], seed),
         "basis": ["weight", "molar"],
         "T": [333.15, 318.15] if q else [333.15, 318.15, 351.15],
     }
